@@ -220,7 +220,10 @@ func boundedEnvelope() (ok bool) {
 			}
 		}
 	}
-	for _, p := range [][]byte{wBytes(wBytes(payload)), wBytes([]byte{0xf6}), wBytes([]byte{0x80}), wBytes(nil), wBytes([]byte{0x01})} {
+	for _, p := range [][]byte{wBytes(wBytes(payload)), wBytes([]byte{0xf6}), wBytes([]byte{0x80}), wBytes(nil), wBytes([]byte{0x01}),
+		// tagged non-maps: the codec skips tags, and null / undefined decode into anything without an error
+		wBytes([]byte{0xc6, 0xf6}), wBytes([]byte{0xc6, 0xf7}), wBytes([]byte{0xd9, 0xd9, 0xf7, 0xf6}), wBytes([]byte{0xc6, 0xc6, 0xf6}),
+		wBytes([]byte{0xc6, 0x01}), wBytes([]byte{0xc6, 0x80}), wBytes([]byte{0xc6, 0x40}), wBytes([]byte{0xf7}), wBytes([]byte{0xf4}), wBytes([]byte{0x60})} {
 		if accept(append([]byte{0xd2}, wArray(prot, unprot, p, sig)...)) {
 			fmt.Printf("bounded: payload %x accepted\n", p)
 			return false
@@ -384,4 +387,85 @@ func raceAudit() (ok bool) {
 	}
 	wg.Wait()
 	return ok
+}
+
+// isCBORMapAudit compares isCBORMap with the independent reader on every byte string of length <= 2
+// and on tag heads of every width in front of a map / null / integer / array / truncated input.
+func isCBORMapAudit() bool {
+	ref := func(b []byte) bool { // independent: take tags off with rRead-free logic
+		for {
+			if len(b) == 0 {
+				return false
+			}
+			mt, ai := b[0]>>5, b[0]&0x1f
+			if mt != 6 {
+				return mt == 5
+			}
+			var n int
+			switch {
+			case ai < 24:
+				n = 1
+			case ai == 24:
+				n = 2
+			case ai == 25:
+				n = 3
+			case ai == 26:
+				n = 5
+			case ai == 27:
+				n = 9
+			default:
+				return false // malformed tag head: never reaches isCBORMap (the codec rejects it first)
+			}
+			if len(b) < n {
+				return false
+			}
+			b = b[n:]
+		}
+	}
+	check := func(b []byte) bool {
+		ai := byte(0)
+		if len(b) > 0 {
+			ai = b[0] & 0x1f
+		}
+		if len(b) > 0 && b[0]>>5 == 6 && ai > 27 {
+			return true // malformed head, outside the helper's domain
+		}
+		if isCBORMap(b) != ref(b) {
+			fmt.Printf("bounded: isCBORMap(%x) = %v, independent reader says %v\n", b, isCBORMap(b), ref(b))
+			return false
+		}
+		return true
+	}
+	if !check(nil) || !check([]byte{}) {
+		return false
+	}
+	for x := 0; x < 256; x++ {
+		if !check([]byte{byte(x)}) {
+			return false
+		}
+		for y := 0; y < 256; y++ {
+			if !check([]byte{byte(x), byte(y)}) {
+				return false
+			}
+		}
+	}
+	heads := [][]byte{{0xc6}, {0xd8, 0x20}, {0xd9, 0xd9, 0xf7}, {0xda, 0, 1, 0, 0}, {0xdb, 0, 0, 0, 1, 0, 0, 0, 0}}
+	tails := [][]byte{{0xa0}, {0xa1, 1, 2}, {0xbf, 0xff}, {0xf6}, {0xf7}, {0x01}, {0x80}, {0x40}, {}}
+	for _, h1 := range heads {
+		for _, h2 := range append(heads, []byte{}) {
+			for _, t := range tails {
+				b := append(append(append([]byte{}, h1...), h2...), t...)
+				for cut := 0; cut <= len(b); cut++ {
+					c := b[:cut]
+					if len(c) > 0 && c[0]>>5 == 6 {
+						// truncated inside a later malformed head cannot occur: heads here are well formed
+					}
+					if !check(c) {
+						return false
+					}
+				}
+			}
+		}
+	}
+	return true
 }
